@@ -18,7 +18,7 @@ KNOWN_FILE = os.path.join(ROOT, "known_findings.json")
 
 class Entry:
     def __init__(self, name, fmode="real", imode="int", params=None, cap=None, budget=None, ad=(),
-                 ub_checks=False, note="", concretize_fptoi=False, shard=None, summarize_loops=False, skip_ids=(), shard_forks=False, short=None, lockmon=None, expect_reach=True, kinds=None, setup=None):
+                 ub_checks=False, note="", concretize_fptoi=False, shard=None, summarize_loops=False, skip_ids=(), shard_forks=False, short=None, lockmon=None, expect_reach=True, kinds=None, setup=None, strict_first=True):
         self.name = name
         self.fmode = fmode
         self.imode = imode
@@ -37,6 +37,7 @@ class Entry:
         self.lockmon = lockmon
         self.expect_reach = expect_reach
         self.kinds = kinds      # obligation kinds to discharge (default: all)
+        self.strict_first = strict_first
         self.setup = setup      # callable(engine) for model overrides
 
     def label(self):
@@ -296,7 +297,7 @@ class Runner:
 
         def work(job):
             ent, eng, o, q, q1, qs = job
-            cap = min(self.cap, 10.0) if o["kind"] in ("ub", "def", "mem") else ent.cap
+            cap = min(ent.cap or self.cap, 10.0) if o["kind"] in ("ub", "def", "mem") else (ent.cap or self.cap)
             pre_secs = 0.0
             pre_answers = {}
             for k, sq in enumerate(qs):
@@ -425,18 +426,36 @@ class Runner:
             rec["status"] = "unconfirmed"
             rec["why"] = "sat but no model could be extracted"
             return
-        assignment = self.concretise(eng, model)
+        def run_model(model):
+            assignment = self.concretise(eng, model)
+            nat = self.replay(ent, assignment)
+            failing = [c for c, ok in nat["checks"] if not ok]
+            if o["kind"] in ("check", "lemma"):
+                confirmed = o["id"] in failing
+            else:
+                confirmed = bool(failing) or nat["status"].startswith("crash") or nat["status"] == "timeout"
+            if o["kind"] in ("check", "lemma") and nat["status"] in ("timeout",) or nat["status"].startswith("crash"):
+                confirmed = True
+            return assignment, nat, failing, confirmed
+        assignment, nat, failing, confirmed = run_model(model)
+        if not confirmed and o["kind"] in ("check", "lemma"):
+            # solvers return the simplest point of the violating region (zeros, repeated values), which is often degenerate for
+            # the real code (rank-deficient systems, ties): ask once more for a generic point - all real inputs of the query
+            # non-zero and pairwise distinct - before calling the model unconfirmed
+            qvars = set()
+            for a in r["q"]["asserts"]:
+                qvars |= eng.expr_info(a)[0]
+            reals = [c for nme, c in inputs.items() if not nme.startswith("\0") and z3.is_real(c) and str(c) in qvars][:24]
+            if reals:
+                generic = [c != 0 for c in reals] + [reals[i] != reals[j] for i in range(len(reals)) for j in range(i + 1, len(reals))]
+                m2 = solve.get_model(full + generic, r["q"]["logic"], inputs, timeout_ms=int(min(self.cap, 20) * 1000))
+                if m2 is not None:
+                    a2, n2, f2, c2 = run_model(m2)
+                    if c2:
+                        assignment, nat, failing, confirmed = a2, n2, f2, c2
+                        rec["generic_model"] = True
         rec["model"] = {k: (v if isinstance(v, int) else repr(v)) for k, v in assignment.items()}
-        nat = self.replay(ent, assignment)
-        failing = [c for c, ok in nat["checks"] if not ok]
         rec["native"] = dict(status=nat["status"], failing=failing)
-        confirmed = False
-        if o["kind"] in ("check", "lemma"):
-            confirmed = o["id"] in failing
-        else:
-            confirmed = bool(failing) or nat["status"].startswith("crash") or nat["status"] == "timeout"
-        if o["kind"] in ("check", "lemma") and nat["status"] in ("timeout",) or nat["status"].startswith("crash"):
-            confirmed = True
         if not confirmed:
             rec["status"] = "unconfirmed"
             rec["why"] = "model does not reproduce on the native build (status %s, failing %s)" % (nat["status"], failing)
